@@ -95,6 +95,7 @@ def _run_one(item):
         # quadrature distributions (bosonic: marginal, Fock: x_quad_values / p_quad_values) -> mean and variance on a grid
         grid = np.linspace(-14.0, 14.0, 1401)
         cgrid = np.linspace(-10.0, 10.0, 161)
+        pgrid = np.linspace(-9.0, 9.0, 121)
 
         def moments(pdf, grid=grid):
             pdf = np.real(np.asarray(pdf, dtype=complex))
@@ -107,10 +108,11 @@ def _run_one(item):
                 phi = math.atan2(float(sfx.fr(q[0][1])), float(sfx.fr(q[0][0])))
                 if cfg == "bosonic":
                     _call(out, "marginal:%d:%d" % (m, j), lambda: moments(st.marginal(m, grid, phi)))
-                if cfg.startswith("fock") and abs(phi) < 1e-12 and m == 0:
-                    _call(out, "xquad:%d" % m, lambda: moments(st.x_quad_values(m, cgrid, cgrid), cgrid))
-                if cfg.startswith("fock") and abs(phi - math.pi / 2) < 1e-12 and m == n - 1:
-                    _call(out, "pquad:%d" % m, lambda: moments(st.p_quad_values(m, cgrid, cgrid), cgrid))
+                # (the two grids differ: the x-distribution lives on the first, the p-distribution on the second)
+                if abs(phi) < 1e-12 and m == 0 and hasattr(st, "x_quad_values"):
+                    _call(out, "xquad:%d" % m, lambda: moments(st.x_quad_values(m, cgrid, pgrid), cgrid))
+                if abs(phi - math.pi / 2) < 1e-12 and m == n - 1 and hasattr(st, "p_quad_values"):
+                    _call(out, "pquad:%d" % m, lambda: moments(st.p_quad_values(m, cgrid, pgrid), pgrid))
             # first and second moments through poly_quad_expectation (vector of all x then all p)
             def pq(which, second):
                 A = np.zeros((2 * n, 2 * n))
@@ -234,7 +236,90 @@ def c16(chk):
                         chk.violation("RepresentationsDisagree", {"backend": cfg, "method": k.split(":")[0]},
                                       {"history": json.loads(hk), "query": k, "gaussian": a, cfg: b, "slack": slack})
     post_processing(chk)
+    cat_observables(chk)
     chk.exhaustive = True
+
+
+def _cat_obs(arg):
+    """worker: observables of a cat-state program on the bosonic and Fock representation"""
+    import strawberryfields as sf
+    from strawberryfields import ops
+    from . import sfx
+    item, par, cfg, cutoff = arg
+    try:
+        prog = sf.Program(2)
+        cat = item["hist"][0]
+        with prog.context as q:
+            ops.Catstate(float(sfx.fr(cat["p"][0])), sfx.to_float("angle", cat["p"][1]), par) | q[0]
+            for o in item["hist"][1:]:
+                sfx.mk_op(o) | tuple(q[m] for m in o["modes"])
+        st = sfx.engine(cfg, cutoff).run(prog).state
+        out = {"ok": True}
+        grid = np.linspace(-14.0, 14.0, 1401)
+        for m in (0, 1):
+            for j, phi in enumerate((0.0, math.atan2(4, 3), math.pi / 2)):
+                _call(out, "quad:%d:%d" % (m, j), lambda: [float(np.real(v)) for v in st.quad_expectation(m, phi)])
+                if cfg == "bosonic":
+                    def marg():
+                        pdf = np.real(np.asarray(st.marginal(m, grid, phi), dtype=complex))
+                        dx = grid[1] - grid[0]
+                        z = pdf.sum() * dx
+                        m1 = (grid * pdf).sum() * dx / z
+                        return [float(m1), float(((grid - m1) ** 2 * pdf).sum() * dx / z)]
+                    _call(out, "marginal:%d:%d" % (m, j), marg)
+            _call(out, "mean_photon:%d" % m, lambda: [float(np.real(v)) for v in st.mean_photon(m)][:1])
+        if cfg.startswith("fock"):
+            out["trace"] = float(np.real(st.trace()))
+        return out
+    except Exception as e:  # noqa
+        return {"ok": False, "err": type(e).__name__, "msg": str(e)[:300], "tb": traceback.format_exc()[-800:]}
+
+
+def cat_observables(chk):
+    """non-Gaussian states: cat states of several parities after one lattice operation (MC_Cat.tla: exact component means and
+    covariance, symbolic weights): quadrature moments at three angles, marginal distributions and mean photon number of the
+    bosonic (and, sampled, the Fock) state object against the moments of the combination"""
+    from . import p_gauss
+    r = chk.tlc("MC_Cat", constants={"Depth": 1, "ANum": 1, "ADen": 2 if chk.tier == "quick" else 1, "MeasMode": "none", "EMIT": True},
+                invariants=["CovPhysical", "Paired", "EmitInv"])
+    items = r.json
+    jobs = [(it, p, "bosonic", None) for it in items for p in p_gauss.CAT_PARITIES]
+    jobs += [(it, p, "fock", 16) for k, it in enumerate(items) for p in (0, 1) if k % 4 == chk.seed % 4 and
+             not any(o["name"] in ("S2gate", "Sgate") for o in it["hist"][1:])]
+    res = common.pmap(_cat_obs, jobs, chunksize=4)
+    angles = [(1.0, 0.0), (0.6, 0.8), (0.0, 1.0)]
+    for (it, par, cfg, cutoff), o in zip(jobs, res):
+        chk.traces += 1
+        hk = lattice.hist_key(it["hist"])
+        f0 = {"backend": cfg, "state": "cat"}
+        det = {"config": cfg, "program": "Catstate(%s, parity %s) ; %s" % (lattice.fmt_p(it["hist"][0]["p"]), par, short(it["hist"][1:]))}
+        if not o["ok"]:
+            chk.violation("UnexpectedError", dict(f0, error=o["err"]), dict(det, msg=o["msg"], tb=o.get("tb")))
+            continue
+        mean, cov, _ = p_gauss.cat_oracle(it, par)
+        slack = 1e-7 if cfg == "bosonic" else 6e-3
+        if cfg == "fock" and o.get("trace", 1) < 1 - 1e-4:
+            chk.inconclusive += 1
+            continue
+        for m in (0, 1):
+            for j, (c, s_) in enumerate(angles):
+                wm = c * mean[m] + s_ * mean[m + 2]
+                wv = c * c * cov[m, m] + s_ * s_ * cov[m + 2, m + 2] + 2 * c * s_ * cov[m, m + 2]
+                for meth, key, sl in (("quad_expectation", "quad:%d:%d" % (m, j), slack), ("marginal", "marginal:%d:%d" % (m, j), 1e-5)):
+                    g = o.get(key)
+                    if g is None:
+                        continue
+                    chk.count(key=(hk, cfg, par, key), nontrivial=True)
+                    if isinstance(g, dict):
+                        if not is_refusal(g):
+                            chk.violation("UnexpectedError", dict(f0, method=meth, error=g["raised"]), dict(det, query=key, msg=g["msg"]))
+                    elif abs(g[0] - wm) > sl * (1 + abs(wm)) or abs(g[1] - wv) > sl * (1 + abs(wv)):
+                        chk.violation("ObservableWrong", dict(f0, method=meth, tuple_len=1, sorted=True), dict(det, query=key, got=g, want=[wm, wv]))
+            g = o.get("mean_photon:%d" % m)
+            wn = (cov[m, m] + cov[m + 2, m + 2] + mean[m] ** 2 + mean[m + 2] ** 2) / 4 - 0.5
+            if g is not None and not isinstance(g, dict) and abs(g[0] - wn) > slack * (1 + abs(wn)):
+                chk.violation("ObservableWrong", dict(f0, method="mean_photon", tuple_len=1, sorted=True), dict(det, got=g, want=wn))
+    chk.notes["cat_observable_cases"] = len(jobs)
 
 
 def _post_one(it):
@@ -376,8 +461,13 @@ def judge(chk, cfg, cutoff, it, o):
         fv = 2 ** n * math.exp(-qfI / 2) / math.sqrt(detI)
         check("fidelity_vacuum", "fidelity_vacuum", o.get("fidelity_vacuum"), fv, s2, None)
         check("fock_prob", "fock_prob:vac", o.get("fock_prob:" + ",".join(["0"] * n)), fv, s2, None)
-        if "purity" in o:
-            check("purity", "purity", o["purity"], 1 / math.sqrt(F(full["det"])), s2, None)
+        pass
+    if "purity" in o:
+        from . import sfx_cmp as _sc
+        _, Vex = _sc.exact_arrays(it["st"])
+        check("purity", "purity", o["purity"], 1 / math.sqrt(max(float(np.linalg.det(Vex)), 1e-300)), 10 * s2, None)
+    if False:
+        pass
     for m, mo in enumerate(it["modes"]):
         one = ts.get(str(it["st"]["modes"][m]))
         for j, q in enumerate(mo["quad"]):
